@@ -164,6 +164,9 @@ type World struct {
 var chains = []string{"timeout", "flush", "tfast"}
 var ovrs = []string{"none", "xcto", "xfo", "xss", "hsts", "other"}
 
+// PortSuffix: every upstream is also configured for the Host spelled with this port
+const PortSuffix = ":8443"
+
 // HostFor names the upstream configured with the chain and override.
 func HostFor(chain, ovr string) string { return chain + "-" + ovr + ".sso.test" }
 
@@ -182,29 +185,37 @@ func upstreamYAML(addr string) string {
 	var y strings.Builder
 	k := 0
 	for _, ch := range chains {
-		for _, o := range ovrs {
-			k++
-			fmt.Fprintf(&y, "- service: %s_%s\n  default:\n    from: %s\n    to: %s\n    options:\n", ch, o, HostFor(ch, o), addr)
-			fmt.Fprintf(&y, "      allowed_email_domains:\n        - %s\n      skip_auth_regex:\n        - ^/public/\n", okDomain)
-			switch ch {
-			case "timeout":
-				fmt.Fprintf(&y, "      timeout: 8s\n")
-			case "tfast":
-				fmt.Fprintf(&y, "      timeout: %dms\n", fastTimeout/time.Millisecond)
-			case "flush":
-				fmt.Fprintf(&y, "      flush_interval: 20ms\n")
-			}
-			switch o {
-			case "none":
-			case "other":
-				fmt.Fprintf(&y, "      header_overrides:\n        X-Verif-Custom: \"yes\"\n")
-			default:
-				id := strings.ToUpper(o)
-				if o == "xss" {
-					id = "XXSS"
+		for _, tw := range []string{"", PortSuffix} {
+			for _, o := range ovrs {
+				if tw == "" {
+					k++
 				}
-				// the key is spelled canonically, lower- or upper-case depending on the upstream (Set canonicalises)
-				fmt.Fprintf(&y, "      header_overrides:\n        %s: %q\n", ovrKeySpelling(id, k), ovrVal[id])
+				svc := ch + "_" + o
+				if tw != "" {
+					svc += "_port" // the same upstream reached through a Host that names a port (a route of its own)
+				}
+				fmt.Fprintf(&y, "- service: %s\n  default:\n    from: %s\n    to: %s\n    options:\n", svc, HostFor(ch, o)+tw, addr)
+				fmt.Fprintf(&y, "      allowed_email_domains:\n        - %s\n      skip_auth_regex:\n        - ^/public/\n", okDomain)
+				switch ch {
+				case "timeout":
+					fmt.Fprintf(&y, "      timeout: 8s\n")
+				case "tfast":
+					fmt.Fprintf(&y, "      timeout: %dms\n", fastTimeout/time.Millisecond)
+				case "flush":
+					fmt.Fprintf(&y, "      flush_interval: 20ms\n")
+				}
+				switch o {
+				case "none":
+				case "other":
+					fmt.Fprintf(&y, "      header_overrides:\n        X-Verif-Custom: \"yes\"\n")
+				default:
+					id := strings.ToUpper(o)
+					if o == "xss" {
+						id = "XXSS"
+					}
+					// the key is spelled canonically, lower- or upper-case depending on the upstream (Set canonicalises)
+					fmt.Fprintf(&y, "      header_overrides:\n        %s: %q\n", ovrKeySpelling(id, k), ovrVal[id])
+				}
 			}
 		}
 	}
